@@ -318,6 +318,21 @@ pub fn nested(shape: &str, depth: usize) -> (String, bool) {
             // the outermost `} m0;` declares a variable; fine
             (s, false)
         }
+        "anonstruct" => {
+            let mut s = String::from("struct Top { ");
+            for i in 0..depth { s.push_str(&format!("struct {{ int a{i}; ")); }
+            s.push_str("int leaf;");
+            for i in (0..depth).rev() { s.push_str(&format!(" }} m{i};")); }
+            s.push_str(" };");
+            (s, false)
+        }
+        "structdef" => {
+            let mut s = String::new();
+            for i in 0..depth { s.push_str(&format!("struct D{i} {{ int a{i}; ")); }
+            s.push_str("int leaf;");
+            for _ in 0..depth { s.push_str(" };"); }
+            (s, false)
+        }
         "pointer" => (format!("typedef int {} deep_ptr;\ndeep_ptr get(void);", "*".repeat(depth)), false),
         "array" => {
             let dims: String = (0..depth).map(|_| "[1]").collect();
